@@ -88,6 +88,17 @@ pub fn check(ctx: &Ctx) -> i32 {
             report.violations.push(write_replay(ctx, "linear", &bytes, &f));
         }
     }
+    // third domain: directly generated (print-free) Core programs through focusing, shrinking and
+    // linearization
+    if report.violations.is_empty() {
+        let n3 = ctx.tier.pick(1500, 100000);
+        let run3 = |b: &[u8]| run_core_lin_case(ctx, Arch::Rv, b, false).0;
+        let out3 = drive(&mut ev, ctx.seed, 208, n3, 60, 1500, 300, &run3);
+        if let Some((bytes, f)) = out3.failure {
+            eprintln!("{}", f.summary);
+            report.violations.push(write_replay(ctx, "core-pipeline", &bytes, &f));
+        }
+    }
     let infra: u64 = ev.discards.iter().filter(|(k, _)| k.starts_with("infra")).map(|(_, v)| *v).sum();
     if infra > 0 {
         report.infra_errors.push(format!("{infra} cases hit an infrastructure problem (see evidence)"));
@@ -98,6 +109,9 @@ pub fn check(ctx: &Ctx) -> i32 {
 pub fn replay(ctx: &Ctx, sub: &str, bytes: &[u8], case: &serde_json::Value) -> CaseResult {
     if sub.starts_with("linear") {
         return run_lin_case(ctx, Arch::Rv, &decode_lin(&lin_cfg_for(ctx, Arch::Rv), bytes), false).0;
+    }
+    if sub.starts_with("core-pipeline") {
+        return run_core_lin_case(ctx, Arch::Rv, bytes, false).0;
     }
     let c = fun_case_from_json(case).unwrap_or_else(|| decode(ctx, Arch::Rv, bytes));
     run_case(ctx, &c.prog, &c.tuples)
